@@ -24,7 +24,8 @@ def build(root, profile="dev", gen_src=None):
     os.makedirs(os.path.join(crate, "src"), exist_ok=True)
     tm = open(os.path.join(VERIF, "replay_crate", "Cargo.toml.tmpl")).read().replace("@REPO@", repo)
     open(os.path.join(crate, "Cargo.toml"), "w").write(tm)
-    shutil.copy(os.path.join(VERIF, "replay_crate", "src", "main.rs"), os.path.join(crate, "src", "main.rs"))
+    main_src = open(os.path.join(VERIF, "replay_crate", "src", "main.rs")).read()
+    open(os.path.join(crate, "src", "main.rs"), "w").write(main_src)
     if gen_src is None:
         shutil.copy(os.path.join(VERIF, "replay_crate", "src", "gen.rs"), os.path.join(crate, "src", "gen.rs"))
     else:
@@ -35,6 +36,14 @@ def build(root, profile="dev", gen_src=None):
         cmd.append("--release")
     p = subprocess.run(cmd, cwd=crate, stdout=subprocess.PIPE, stderr=subprocess.STDOUT, text=True,
                        env=dict(os.environ, CARGO_NET_OFFLINE="true"))
+    if p.returncode != 0 and re.search(r"--> src/main\.rs:", p.stdout):
+        # the fixed fall-through traits no longer compile against this tree (the macro rejects / mis-expands them): build
+        # without them; their scenarios then report outcome "skipped" (never counted as a reproduction)
+        stub = ('fn fallthrough(_p: &HashMap<String, String>) {\n    obs("skipped", "the fall-through traits do not compile against this tree")\n}\n')
+        main2 = re.sub(r"(?s)//@ft-begin\n.*?//@ft-end\n", stub, main_src)
+        open(os.path.join(crate, "src", "main.rs"), "w").write(main2)
+        p = subprocess.run(cmd, cwd=crate, stdout=subprocess.PIPE, stderr=subprocess.STDOUT, text=True,
+                           env=dict(os.environ, CARGO_NET_OFFLINE="true"))
     if p.returncode != 0:
         _built[key] = (None, p.stdout[-3000:])
     else:
@@ -95,6 +104,8 @@ def expected_lifecycle(p):
 
 
 def matches(obs, exp):
+    if obs["outcome"] == "skipped":
+        return True
     if obs["outcome"] != exp[0]:
         return False
     want = exp[1]
@@ -112,7 +123,7 @@ def lifecycle_neighbourhood(seed_params):
     out.append(dict(who="original", action="noverify_clone_of_disabled", panicking=0, clones=0, other_thread=0, recorded=0, unmet=1, helper=0))
     for who, action in (("original", "drop"), ("original", "verify"), ("original", "report"), ("clone", "drop"), ("original", "noverify")):
         for panicking, clones, other, recorded, unmet, helper in itertools.product((0, 1), (0, 1), (0, 1), (0, 1, 2), (0, 1), (0, 1)):
-            if action in ("verify", "report", "noverify") and panicking:
+            if action == "noverify" and panicking:
                 continue
             q = dict(who=who, action=action, panicking=panicking, clones=clones, other_thread=other, recorded=recorded, unmet=unmet, helper=helper)
             if q not in out:
@@ -121,6 +132,10 @@ def lifecycle_neighbourhood(seed_params):
                 q2 = dict(q, via_original=1)
                 if q2 not in out:
                     out.append(q2)
+            if who == "original" and not clones and not other and not helper:
+                q3 = dict(q, chain_clone=1)
+                if q3 not in out:
+                    out.append(q3)
     return out
 
 
